@@ -406,6 +406,8 @@ def run_world(w, rng):
         t_cases, m_cases = [], []
         enforce = specs[0]["enforce"]
         try:
+            if rng.random() < 0.3:      # an earlier tally of other cards must leave no trace
+                A.Contest.tally(con_dict, cvrs[: max(1, len(cvrs) // 2)], enforce_rules=not enforce)
             A.Contest.tally(con_dict, cvrs, enforce_rules=enforce)
         except Exception as e:  # noqa
             pass
@@ -460,8 +462,14 @@ def run_world(w, rng):
                     m_cases.append(run_margin(asn, con, d, v))
                 elif v == "cards0":
                     con.cards = 0
-                    m_cases.append(run_margin(asn, con, None, v))
+                    mc0 = run_margin(asn, con, None, v)
                     con.cards = n_f
+                    # (super-majority, cards = 0: the result is inf * (p/f - 1); when the winner sits at the
+                    #  threshold the sign of the second factor is a rounding matter -- not comparable)
+                    tw = dict(snapshot or {}).get(asn.winner, 0)
+                    vv = sum(dict(snapshot or {}).get(x, 0) for x in s["cands"])
+                    if not (s["scf"] == "SUPERMAJORITY" and vv and abs(F(tw, vv) / mc0["f"] - 1) < F(1, 10 ** 9)):
+                        m_cases.append(mc0)
                 elif v == "notally":
                     con.tally = None
                     m_cases.append(run_margin(asn, con, None, v))
@@ -683,7 +691,7 @@ def digest(ac):
 
 def run(ctx, res):
     rng = ctx.rng
-    n_worlds = ctx.n(260, 6000)
+    n_worlds = ctx.n(260, 4000)
     a_cases, t_cases, m_cases = [], [], []
     stats = {}
 
